@@ -4,9 +4,9 @@
    state field by field.  Proved on the model: the storage / graph / registry invariant FInv
    holds in every world reachable through ALL top-level calls of the driver, for every handler
    behaviour (last theorem); cached transitions after a type removal (the part that was false on
-   the pinned tree); the listener-table characterisation.  Not covered by FInv: the per-archetype
-   listener tables and "no reservation or queued event left pending" (decided by the audit and
-   the correspondence on every run). *)
+   the pinned tree); the listener tables: in every reachable world they name exactly the live
+   handlers whose filter matches (AI = FInv /\ HL, Listen.v).  Not covered: "no reservation or
+   queued event left pending" (decided by the audit and the correspondence on every run). *)
 From Coq Require Import List NArith Bool.
 Require Import EV.Base EV.Access EV.HList EV.World EV.ArchProofs.
 
@@ -104,3 +104,14 @@ Theorem c17_every_reachable_world_is_consistent_all_calls :
     FInv (fold_left (run_top_all beh) ops (world0 fuel p)).
 Proof. exact reachable_FInv. Qed.
 Print Assumptions c17_every_reachable_world_is_consistent_all_calls.
+
+Require Import EV.Listen.
+
+(* ... and the per-archetype listener tables and global listener lists name, without repetition,
+   exactly the live handlers whose receiver has that event index (and whose filter matches the
+   archetype); the handler registry is coherent (HL = HInv /\ LInv) *)
+Theorem c17_listener_tables_are_exact_in_every_reachable_world :
+  forall (beh : hinfo -> logent -> N -> script) (fuel p : N) (ops : list top_all),
+    AI (fold_left (run_top_all beh) ops (world0 fuel p)).
+Proof. exact reachable_AI. Qed.
+Print Assumptions c17_listener_tables_are_exact_in_every_reachable_world.
